@@ -162,10 +162,13 @@ package kvgraph
 // Index fields are named "<graph>.v.<...>" / "<graph>.e.<...>"; graph names contain no
 // '.', so the first dot-component of a field name is its graph.
 //@ func (*KVGraph).deleteGraphIndex
-//@   property C16
-//@   option prelude=keys
+//@   property C16 C03
+//@   option prelude=keys,kv
 //@   option load=kvindex,kvi
-//@   requires nonnil: kgraph != nil && kgraph.idx != nil && kgraph.idx.Fields != nil
+//@   modifies MapD.Str MapN KV.
+//@   requires nonnil: kgraph != nil && kgraph.idx != nil && kgraph.idx.Fields != nil && kgraph.idx.KV != nil
+//@   loop 1 invariant kvframe: forall k:Str :: !idxkey(k) ==> ((kvhas(k) <==> old(kvhas(k))) && kvval(k) == old(kvval(k)))
+//@   ensures kvframe: forall k:Str :: !idxkey(k) ==> ((kvhas(k) <==> old(kvhas(k))) && kvval(k) == old(kvval(k)))
 //@   let reg = kgraph.idx.Fields
 //@   loop 1 invariant only: forall f:Str :: has(reg, f) ==> old(has(reg, f))
 //@   loop 1 invariant keep: forall f:Str :: old(has(reg, f)) && slnth(bsplit(f, "."), 0) != graph ==> has(reg, f)
@@ -273,3 +276,36 @@ package kvgraph
 //@   ensures touch: result == nil && len(edges) > 0 ==> touched(kgdb.graph)
 //@   ensures notouch: len(edges) == 0 ==> same(touchedset(), old(touchedset()))
 //@   ensures onlythis: forall g:Str :: g != kgdb.graph ==> (touched(g) <==> old(touched(g)))
+
+// DeleteGraph removes every key of the graph's five key families and nothing of any
+// other graph (graph names are NUL-free, so one graph's prefixes never capture
+// another's keys -- lemmas keys.prefix.*); errors of the store are reported.
+//@ func (*KVGraph).DeleteGraph
+//@   property C03 C16
+//@   option prelude=keys,kv
+//@   option load=kvindex,kvi,timestamp
+//@   option globals=kvgraph
+//@   modifies KV. TS. MapD.Str MapN
+//@   requires nonnil: kgraph != nil && kgraph.kv != nil && kgraph.ts != nil && kgraph.idx != nil && kgraph.idx.Fields != nil && kgraph.idx.KV != nil
+//@   let vp = VertexListPrefix(graph)
+//@   let ep = EdgeListPrefix(graph)
+//@   let sp = SrcEdgeListPrefix(graph)
+//@   let dp = DstEdgeListPrefix(graph)
+//@   let gk = GraphKey(graph)
+//@   ensures gone: result == nil ==> (forall k:Str :: kvhas(k) ==> !hasprefix(k, vp) && !hasprefix(k, ep) && !hasprefix(k, sp) && !hasprefix(k, dp) && k != gk)
+//@   ensures isolated: forall k:Str :: old(kvhas(k)) && !idxkey(k) && !hasprefix(k, vp) && !hasprefix(k, ep) && !hasprefix(k, sp) && !hasprefix(k, dp) && k != gk ==>
+//@       kvhas(k) && kvval(k) == old(kvval(k))
+//@   ensures nonew: forall k:Str :: kvhas(k) && !idxkey(k) ==> old(kvhas(k))
+//@   ensures touch: touched(graph) && (forall g:Str :: g != graph ==> (touched(g) <==> old(touched(g))))
+
+// AddGraph: an invalid name is refused and changes nothing; a valid name stores the
+// graph key (and index registrations), leaving every other non-index key alone.
+//@ func (*KVGraph).AddGraph
+//@   property C03 C16
+//@   option prelude=keys,kv
+//@   option load=kvindex,kvi,timestamp,gripql
+//@   option globals=kvgraph
+//@   modifies KV. TS. MapD.Str MapN MapV. SH. alloc
+//@   requires nonnil: kgraph != nil && kgraph.kv != nil && kgraph.ts != nil && kgraph.idx != nil && kgraph.idx.Fields != nil && kgraph.idx.KV != nil
+//@   ensures faithful: result == nil ==> nozero(graph) && kvhas(GraphKey(graph))
+//@   ensures frame: forall k:Str :: !idxkey(k) && k != GraphKey(graph) ==> ((kvhas(k) <==> old(kvhas(k))) && kvval(k) == old(kvval(k)))
